@@ -27,7 +27,7 @@ use serde_json::{json, Value};
 #[global_allocator]
 static GA: harness::Counting = harness::Counting;
 
-type PL = parking_lot::RawMutex;
+type PL = harness::PLD;
 type NL = futures_intrusive::verif::NoopLock;
 
 macro_rules! systems {
